@@ -19,6 +19,12 @@ def tier_configs(tier, prop=None):
     for c in ENABLED.get('extra', {}).get(prop, []) if prop else sorted({x for v in ENABLED.get('extra', {}).values() for x in v}):
         if c not in out:
             out.append(c)
+    if tier == 'quick':
+        # per-property additions to the quick tier (cheap properties run every configuration on every change)
+        qx = ENABLED.get('quick_extra', {})
+        for c in (qx.get(prop, []) if prop else sorted({x for v in qx.values() for x in v})):
+            if c not in out:
+                out.append(c)
     return out
 
 
@@ -485,6 +491,14 @@ def check_property(prop, tier, configs=None, only=None, keep=False, write_eviden
     return exit_code
 
 
+# property-specific statements of what a check relies on from OTHER registered checks
+PROP_ASSUMPTIONS = {
+    'C16': ['C16 is an equality between a scalar overload and a lane of the vector function.  This check puts every scalar overload '
+            'under the bit-level specification of its family; the LANE side is put under the same specification functions by the checks of '
+            'C04 (shifts, rotations), C06 (bit functions), C07 (min/max/clamp, abs, negate, average, midpoint, keep/clear/blend), C11, C12, C13 '
+            '(float family).  A change of a vector function is reported by the property that owns it, not by this check.'],
+}
+
 LEMMA_PROPS = {'C01': 'L1 (64-bit product from 32-bit partial products)', 'C05': 'L5 (Euclidean witness of shift-subtract dividers), L2, A1 (truncated rounded binary64 quotient)',
                'C14': 'L3 (unsigned), L4 (signed) Granlund-Montgomery, L6 (high product from partial products)', 'C15': 'L3, L4 (lane-wise), L6, L7 (signed high product from the unsigned one)'}
 LEMMA_STATUS = {}
@@ -566,7 +580,7 @@ def write_ev(prop, tier, cfgs, obs, passed, violations, known_hits, undecided, c
             'instruction / libc models in /verif/models are the semantics of the external functions (validated on this CPU, not proved)',
             'clang 14 typed AST and the cxx2c emitter preserve the meaning of the C++ source (guarded by abort-on-unknown and differential tests)',
             'machine integers are bit-vectors; IEEE-754 arithmetic as encoded by CBMC',
-        ],
+        ] + PROP_ASSUMPTIONS.get(prop, []),
         'wall_s': round(wall, 1), 'violations': nviol,
     }
     os.makedirs(os.path.join(ROOT, 'evidence'), exist_ok=True)
